@@ -77,10 +77,16 @@ func (w *iw) Write(buf []byte) (int, error) {
 		lines = append([][]byte{{}}, lines...)
 	}
 	joined := bytes.Join(lines, w.prefix)
+	continued := w.partial
 	w.partial = joined[len(joined)-1] != '\n'
 
 	n, err := w.w.Write(joined)
 	if err != nil {
+		if continued {
+			// The first line continues a line that already has its
+			// prefix, so no prefix was emitted before it.
+			n += len(w.prefix)
+		}
 		return actualWrittenSize(n, len(w.prefix), lines), err
 	}
 
